@@ -4,7 +4,7 @@ export GOFLAGS=-mod=mod GOPROXY=off GOSUMDB=off GOTOOLCHAIN=local
 W=/tmp/wt/$1; O=/tmp/wt/$1_out; S=/verif/seeded/$2
 mkdir -p $S
 cd $W || exit 2
-git checkout -q -- . ; rm -f nfs/zz_demo_test.go simple/zz_demo_test.go kvs/zz_demo_test.go
+git checkout -q -- . ; rm -f nfs/zz_demo_test.go simple/zz_demo_test.go kvs/zz_demo_test.go nfstypes/zz_demo_test.go dir/zz_demo_test.go
 DEMO=$(ls $O/*_test.go | head -1); DPKG=$(grep -m1 '^package' $DEMO | awk '{print $2}'); 
 case $DPKG in nfs) DDIR=nfs;; simple) DDIR=simple;; kvs) DDIR=kvs;; dir) DDIR=dir;; nfstypes) DDIR=nfstypes;; *) DDIR=nfs;; esac
 TAGS=""; grep -q 'go:build verif' $DEMO && TAGS="-tags verif"; [ -n "$4" ] && TAGS="$TAGS $4"
